@@ -8,8 +8,12 @@ PROPS["C25"] = dict(
                "prefix is exactly the begins with no matching end since (C25_open_marks); at every visible character the value "
                "reported for a name is that of the greatest-id mark of that name covering it, absent iff none covers it "
                "(C25_mark_value_highest_id), null = unmarked (C25_null_is_unmarked); marks() - the calculate_marks_slow / "
-               "MarkAccumulator mirror - expanded range by range, get_marks(i) and the span mark sets all equal that pointwise "
-               "marking; every reader is a function of the SET of operations (C25_marks_converge). Tied to the code by the family "
+               "MarkAccumulator mirror - expanded range by range (C25_marks_eq_pointwise), get_marks(i) by element "
+               "(C25_get_marks_eq_pointwise; by text index only for unit widths, C25_get_marks_text_index_refuted otherwise) and the "
+               "span mark sets (C25_spans_marks_eq_pointwise, C25_spans_concat_text) all equal that pointwise marking; every reader "
+               "is a function of the SET of operations (C25_marks_converge); for one mark over plain text the insert query anchors "
+               "a character inserted at the start / end boundary so that it is covered iff expand says so "
+               "(C25_expand_single_mark_start_partial / _end_partial: item level, no tombstones, no second mark). Tied to the code by the family "
                "`marks`: every transaction of mark / unmark / splice_text calls is replayed by the model (InsertQuery anchor rule, "
                "begin / end placement, empty and inverted ranges, failed calls) and compared op for op with the committed change; "
                "marks() / marks_at, get_marks(i) for every i and spans() / spans_at of every replica (current state and recorded "
